@@ -37,6 +37,23 @@ pub fn main(args: &[String]) -> i32 {
             }
             0
         }
+        Some("lsp") => {
+            // --tool lsp <file> <method> [line ch [line2 ch2]]
+            let text = std::fs::read_to_string(&args[1]).expect("read");
+            let method = args[2].clone();
+            let n = |i: usize| args.get(i).and_then(|s| s.parse::<u32>().ok()).unwrap_or(0);
+            let mut ls = crate::ls::Ls::new(crate::ls::LsOpts { pull_diagnostics: true, ..Default::default() });
+            let uri = crate::ls::uri_for("/virtual_tool/doc.lua");
+            ls.notify("textDocument/didOpen", crate::ls::did_open(&uri, &text));
+            ls.settle();
+            let params = crate::ls::requests::valid_params(&method, &uri, n(3), n(4), n(5), n(6));
+            let r = ls.call(1, &method, params);
+            match r {
+                Some(r) => println!("{}", serde_json::to_string_pretty(&serde_json::json!({"result": r.result, "error": r.error.map(|e| e.message)})).unwrap()),
+                None => println!("no response; panics: {:?}", crate::engine::take_panics()),
+            }
+            0
+        }
         _ => {
             eprintln!("tools: parse | lua_ast");
             2
